@@ -1,0 +1,19 @@
+//go:build verif
+
+package capability
+
+// Contracts for the gvc verifier (/verif). Comment-only; never compiled into
+// a normal build.
+
+// DecodeList terminates on every input (property C53: no decoder loops
+// forever): each turn of the loop shortens what is left of the peer's
+// capability string, also when the token it cut off is empty (two spaces in a
+// row).
+//gvc:func DecodeList
+//gvc:  props C53
+//gvc:  theory int
+//gvc:  opt coarse
+//gvc:  opt frame args
+//gvc:  loop 1 invariant pos: len(now(raw)) >= 0
+//gvc:  loop 1 decreases len(now(raw))
+//gvc:end
